@@ -25,7 +25,7 @@ func (Engine) Describe(prop string) core.Description {
 			"Targets come from IP-literal / localhost addresses only (resolution latency and resolver errors are not part of these schedules).",
 			"A quarter of the chunks run on a -race build of the same worker.",
 		}
-		d.RequiredProbes = []string{"loser_closed", "tie_event", "cancel_during_dial", "hang_ignoring_ctx", "start_after_decision", "failure_wakes_feeder", "pool_delays_start", "attempt_timeout", "all_failed_joined", "no_address", "late_success_closed"}
+		d.RequiredProbes = []string{"loser_closed", "tie_event", "cancel_during_dial", "hang_ignoring_ctx", "start_after_decision", "failure_wakes_feeder", "pool_delays_start", "attempt_timeout", "all_failed_joined", "no_address", "late_success_closed", "retry_under_attempt_deadline"}
 	case "C17":
 		d.Rule = "One evaluation = one plan (zone with HTTPS/A/AAAA/CNAME records and resolver failures, comma-separated address, RequireECH / PublicName / caller tls.Config, per-address outcome script) executed against the real Dial with the real Resolver in virtual time; every DialFunc invocation is judged. A run is non-trivial when at least one DialFunc call was made or a RequireECH refusal was possible. The signature is the sequence of (call number, provenance of the address, source of the config list, outcome) plus the option flags and whether Dial returned a connection."
 		d.Assumptions = []string{
